@@ -24,6 +24,7 @@ from .inline import inline_once, _closure_of
 
 MAP = 'std::iter::Iterator::map'
 FILTER = 'std::iter::Iterator::filter'
+FILTER_MAP = 'std::iter::Iterator::filter_map'
 ENUM = 'std::iter::Iterator::enumerate'
 INTO = 'std::iter::IntoIterator::into_iter'
 NEXT = 'std::iter::Iterator::next'
@@ -63,12 +64,12 @@ def _nodes(body, crate):
             continue
         p = t['func'].get('path')
         d = t['dest']['l']
-        if p in (MAP, FILTER) and len(t['args']) == 2:
+        if p in (MAP, FILTER, FILTER_MAP) and len(t['args']) == 2:
             a, c = _plain(t['args'][0]), _plain(t['args'][1])
             cp = _closure_of(body, c) if c is not None else None
             cb = crate.body(cp) if cp else None
             if a is not None and cb is not None and cb.arg_count == 2:
-                out[d] = ('map' if p == MAP else 'filter', a, cp, c, bi)
+                out[d] = ({MAP: 'map', FILTER: 'filter', FILTER_MAP: 'filter_map'}[p], a, cp, c, bi)
         elif p == ENUM and len(t['args']) == 1:
             a = _plain(t['args'][0])
             if a is not None:
@@ -84,7 +85,7 @@ def _lazy(nodes, l, depth=0):
     n = nodes.get(l)
     if n is None or depth > 8:
         return False
-    if n[0] in ('map', 'filter'):
+    if n[0] in ('map', 'filter', 'filter_map'):
         return True
     return _lazy(nodes, n[1], depth + 1)
 
@@ -178,7 +179,7 @@ class _Gen:
                                    'b': {'const': {'ty': 'usize', 'bits': '1', 'ival': '1', 'dbg': '1_usize'}}}, span)
                 cont(b, tl, '(usize, %s)' % ety)
             return self.pull(n[1], span, restart, none_blk, k, depth + 1)
-        if n is not None and n[0] in ('map', 'filter'):
+        if n is not None and n[0] in ('map', 'filter', 'filter_map'):
             kind, inner, cpath, cloc, cblk = n
             self.neutralise(cblk)
             clo = self.crate.body(cpath)
@@ -195,6 +196,21 @@ class _Gen:
                                                    'dest': {'l': y, 'p': []}, 'target': nxt, 'unwind': None}
                     self.to_inline.append((b, clo, cloc))
                     cont(nxt, y, clo.j.get('ret_ty') or 'unknown')
+                elif kind == 'filter_map':
+                    # y = f(e);  None => next element,  Some(v) => v
+                    y = self.new_local(clo.j.get('ret_ty') or 'std::option::Option<unknown>')
+                    self.j['blocks'][b]['term'] = {'k': 'call', 'func': {'path': clo.path, 'full': clo.path, 'name': 'call', 'gargs': []},
+                                                   'args': [{'move': {'l': env, 'p': []}}, {'move': {'l': e, 'p': []}}],
+                                                   'dest': {'l': y, 'p': []}, 'target': nxt, 'unwind': None}
+                    self.to_inline.append((b, clo, cloc))
+                    dd = self.new_local('isize')
+                    v = self.new_local('unknown')
+                    keep = self.new_block(span)
+                    self.assign(nxt, dd, {'k': 'discr', 'place': {'l': y, 'p': []}}, span)
+                    self.j['blocks'][nxt]['term'] = {'k': 'switch', 'discr': {'move': {'l': dd, 'p': []}}, 'targets': [['0', restart[0]], ['1', keep]],
+                                                     'otherwise': restart[0]}
+                    self.assign(keep, v, {'k': 'use', 'op': {'move': {'l': y, 'p': [{'down': 1, 'name': 'Some'}, {'f': 0, 'name': '0', 'ty': 'unknown'}]}}}, span)
+                    cont(keep, v, 'unknown')
                 else:
                     er = self.new_local('&' + ety)
                     self.assign(b, er, {'k': 'ref', 'mut': False, 'place': {'l': e, 'p': []}}, span)
@@ -278,7 +294,7 @@ def expand_lazy_iterators(body, crate, max_rounds=6):
     used = set()
     for _ in range(max_rounds):
         nodes = _nodes(cur, crate)
-        if not any(n[0] in ('map', 'filter') for n in nodes.values()):
+        if not any(n[0] in ('map', 'filter', 'filter_map') for n in nodes.values()):
             break
         did = False
         # collect() of a lazy chain into a Vec
